@@ -242,9 +242,9 @@ Proof. exact (fun lb k p e i => exec_returns lb k p e i). Qed.
 Print Assumptions C10_verdict_total.
 
 (* the code evaluates every predicate as documented, except AS-path predicates
-   of a bmp-in filter on a message of a peer that uses 2-octet AS numbers *)
+   of a bmp-in or bgp-in filter on a message of a peer that uses 2-octet AS numbers *)
 Theorem C10_predicates_as_documented_partial : forall k p i,
-  k <> FBmp \/ in_legacy_as i = false -> eval k p i = eval_spec k p i.
+  k = FRib \/ in_legacy_as i = false -> eval k p i = eval_spec k p i.
 Proof. exact eval_meets_spec_partial. Qed.
 Print Assumptions C10_predicates_as_documented_partial.
 
@@ -253,6 +253,13 @@ Theorem C10_bmp_legacy_aspath_refuted :
   eval_spec FBmp legacy_witness_prog legacy_witness_input = (false, []).
 Proof. exact eval_legacy_refuted. Qed.
 Print Assumptions C10_bmp_legacy_aspath_refuted.
+
+(* the same at bgp-in on a session whose peer did not send the 4-octet AS number capability *)
+Theorem C10_bgp_legacy_aspath_refuted :
+  eval FBgp legacy_witness_prog bgp_legacy_witness_input = (true, []) /\
+  eval_spec FBgp legacy_witness_prog bgp_legacy_witness_input = (false, []).
+Proof. exact eval_bgp_legacy_refuted. Qed.
+Print Assumptions C10_bgp_legacy_aspath_refuted.
 
 (* ---- the provenance a filter is handed (round 4) ----
    [bmsg] = every BMP message type of RFC 7854 (the six of the session state machine model + Route Mirroring);
@@ -289,8 +296,8 @@ Theorem C10_peer_asn_filter_uniform :
   (forall lb p rid addr b1 b2 a1 a2 l1 l2,
      prov_only p = true -> bmsg_pph b1 = None -> bmsg_pph b2 = None ->
      eval_gen lb FBmp p (bmp_view (conn_prov rid addr) b1 a1 l1) = eval_gen lb FBmp p (bmp_view (conn_prov rid addr) b2 a2 l2)) /\
-  (forall lb p pv u1 u2 a1 a2,
-     prov_only p = true -> eval_gen lb FBgp p (bgp_view pv u1 a1) = eval_gen lb FBgp p (bgp_view pv u2 a2)) /\
+  (forall lb p pv u1 u2 a1 a2 l1 l2,
+     prov_only p = true -> eval_gen lb FBgp p (bgp_view pv u1 a1 l1) = eval_gen lb FBgp p (bgp_view pv u2 a2 l2)) /\
   (forall lb k p i1 i2, prov_only p = true -> in_peer_asn i1 = in_peer_asn i2 -> eval_gen lb k p i1 = eval_gen lb k p i2).
 Proof. exact (conj bmp_peer_filter_uniform (conj bmp_peer_filter_headerless (conj bgp_peer_filter_uniform eval_prov_only))). Qed.
 Print Assumptions C10_peer_asn_filter_uniform.
@@ -327,7 +334,7 @@ Print Assumptions C10_bmp_counters_follow_verdicts.
 (* bgp-in and rib-in-pre: the UPDATE (whatever it carries) is judged with the session's provenance; the id on an
    output message of the rib unit is the one of the provenance in the payload's context, Fresh and Mrt alike *)
 Theorem C10_other_sites_provenance :
-  (forall pv u a, in_peer_asn (bgp_view pv u a) = pv_asn pv /\ in_ingress (bgp_view pv u a) = pv_ingress pv) /\
+  (forall pv u a lg, in_peer_asn (bgp_view pv u a lg) = pv_asn pv /\ in_ingress (bgp_view pv u a lg) = pv_ingress pv) /\
   (forall c k a, in_ingress (rib_view_ctx c k a) = k_mui k /\ in_peer_asn (rib_view_ctx c k a) = 0).
 Proof. exact (conj bgp_view_fields rib_view_ingress). Qed.
 Print Assumptions C10_other_sites_provenance.
